@@ -106,4 +106,46 @@ Proof.
   apply rho_extend; [exact He|exact Hb|lia].
 Qed.
 
+(* rho with length n reads only the first n samples *)
+Theorem rho_local (p : formula) (w1 w2 : trace) (n : nat) :
+  (forall x t, t < n -> sig w2 x t = sig w1 x t) ->
+  forall t, t < n -> rho AR pk p w2 n t = rho AR pk p w1 n t.
+Proof.
+  intros Hsig. induction p; intros t Ht; cbn [rho].
+  - apply Hsig. exact Ht.
+  - reflexivity.
+  - rewrite IHp by lia. reflexivity.
+  - rewrite IHp1, IHp2 by lia. reflexivity.
+  - rewrite IHp1, IHp2 by lia. reflexivity.
+  - rewrite IHp by lia. reflexivity.
+  - rewrite IHp1, IHp2 by lia. reflexivity.
+  - rewrite IHp1, IHp2 by lia. reflexivity.
+  - rewrite IHp1, IHp2 by lia. reflexivity.
+  - rewrite IHp1, IHp2 by lia. reflexivity.
+  - rewrite IHp1, IHp2 by lia. reflexivity.
+  - rewrite (IHp t) by lia. destruct t as [|t']; [reflexivity|]. rewrite (IHp t') by lia. reflexivity.
+  - rewrite (IHp t) by lia. destruct t as [|t']; [reflexivity|]. rewrite (IHp t') by lia. reflexivity.
+  - destruct t as [|t']; [reflexivity|]. apply IHp; lia.
+  - destruct t as [|t']; [reflexivity|]. apply IHp; lia.
+  - destruct (Nat.ltb_spec (S t) n); [apply IHp; lia|reflexivity].
+  - destruct (Nat.ltb_spec (S t) n); [apply IHp; lia|reflexivity].
+  - apply wmax_ext. intros i Hi. apply IHp; lia.
+  - apply wmin_ext. intros i Hi. apply IHp; lia.
+  - apply wmax_ext. intros i Hi. f_equal; [apply IHp2; lia|]. apply wmin_ext. intros j Hj. apply IHp1; lia.
+  - apply wmax_ext. intros i Hi. apply IHp; lia.
+  - apply wmin_ext. intros i Hi. apply IHp; lia.
+  - apply wmax_ext. intros i Hi. f_equal; [apply IHp2; lia|]. apply rmin_ext. intros j Hj. apply IHp1; lia.
+  - destruct (t <? b); [reflexivity|]. apply wmax_ext. intros i Hi. apply IHp; lia.
+  - destruct (t <? b); [reflexivity|]. apply wmin_ext. intros i Hi. apply IHp; lia.
+  - destruct (t <? b); [reflexivity|]. apply wmax_ext. intros i Hi.
+    f_equal; [apply IHp2; lia|]. apply wmin_ext. intros j Hj. apply IHp1; lia.
+  - destruct (n <=? t + b); [reflexivity|]. apply wmax_ext. intros i Hi. apply IHp; lia.
+  - destruct (n <=? t + b); [reflexivity|]. apply wmin_ext. intros i Hi. apply IHp; lia.
+  - destruct (n <=? t + b); [reflexivity|]. apply wmax_ext. intros i Hi.
+    f_equal; [apply IHp2; lia|]. apply rmin_ext. intros j Hj. apply IHp1; lia.
+  - apply wmax_ext. intros i Hi. f_equal.
+    + destruct (i + t <? e); [reflexivity|]. apply IHp2; lia.
+    + apply rmin_ext. intros j Hj. destruct (j + t <? e); [reflexivity|]. apply IHp1; lia.
+Qed.
+
 End Extend.
